@@ -2,7 +2,7 @@ From Coq Require Import List NArith ZArith Bool Permutation.
 Import ListNotations.
 Require Import MV.Common.Interleave MV.C10.Model MV.C10.Spec MV.C10.Exec
                MV.C10.ProofsConc MV.C10.ProofsConc2 MV.C10.ProofsSeq MV.C10.ExecProofs
-               MV.C10.ProofsBound MV.C10.ProofsRefine MV.C10.ProofsWire MV.C10.ProofsSound MV.C10.ProofsSuffix MV.C10.ProofsAbs MV.C10.ProofsCompose.
+               MV.C10.ProofsBound MV.C10.ProofsRefine MV.C10.ProofsWire MV.C10.ProofsSound MV.C10.ProofsSuffix MV.C10.ProofsAbs MV.C10.ProofsCompose MV.C10.ProofsCompose2 MV.C10.ProofsAbs2.
 Open Scope N_scope.
 Require Import MV.C10.Properties.
 
@@ -159,3 +159,22 @@ Check (C10_spec_ok_on_model_keys : forall c, o_max c < 4294967296 -> ops_wf c ->
                       && histogram_ok (o_samp c) (o_rsv c) (flat_map (projH k) (o_ops c)) (obs_hist k fl))
             (keyids c) = true).
 Print Assumptions C10_spec_ok_on_model_keys.
+Check (C10_spec_ok_on_model_seq : forall c, seq_wf c -> spec_ok (CSeq c) (run_case (CSeq c)) = true).
+Print Assumptions C10_spec_ok_on_model_seq.
+Check (C10_known_class_none_hazard_free : forall ps sched,
+  known_class (CSched ps sched) = None ->
+  exists full, exec_full (step all_fixed) site rr_fuel (init_config ps) (map N.to_nat sched)
+               = exec (step all_fixed) site (init_config ps) full /\
+    (all_done (step all_fixed) (fst (exec (step all_fixed) site (init_config ps) full)) = true ->
+     safe (init_config ps) full)).
+Print Assumptions C10_known_class_none_hazard_free.
+Check (C10_absolute_no_wrap_outside_class : forall A f ps sched,
+  A < two64 -> Forall (abs_prog A) ps -> one_flusher f ps ->
+  known_class (CSched ps sched) = None ->
+  exists full, exec_full (step all_fixed) site rr_fuel (init_config ps) (map N.to_nat sched)
+               = exec (step all_fixed) site (init_config ps) full /\
+    let c := fst (exec (step all_fixed) site (init_config ps) full) in
+    all_done (step all_fixed) c = true ->
+    Forall (fun d => d <= A) (sent (fst c) ++ rawd (fst c) ++ lost (fst c)) /\
+    cur (cnt (fst c)) <= A /\ last (cnt (fst c)) <= cur (cnt (fst c))).
+Print Assumptions C10_absolute_no_wrap_outside_class.
